@@ -1,12 +1,13 @@
 PROP = "C04"
 LEVEL = "proof"
 CONTRACT_MODULES = ["rdp", "linear_fit"]
-DEDUCTIVE = [
-    ("rdp", "kneeliverse.rdp.rdp"),
-    ("rdp", "kneeliverse.rdp.compute_removed_points"),
-]
-EXPLANATION = "wip"
-LEVEL_TEXT = "wip"
-LEVEL_NOTE = "wip"
-TECHNIQUE = "contract-based deductive verification (AST->VC, z3) of the real functions; bounded run-time layer as labelled stand-in"
-CLAIMED = False
+DEDUCTIVE = [("rdp", "kneeliverse.rdp.rdp")]
+EXPLANATION = ("(K) every retained segment with interior points has its cost on the accepting side of t and (X) every retained interior "
+               "index is explained by a split of a rejected range at an interior arg-max of the requested distance are postconditions of "
+               "rdp.rdp, proved in mode U with ghost witness maps PL/PR (updated by ghost code keyed on the stack growing). 'accept' is "
+               "copied from the statement. The bounded layer compares with the recursive partition incl. boundary thresholds r == t.")
+LEVEL_TEXT = ("Proof (mode U: cost and distance primitives uninterpreted, compared as the library's own doubles) of clauses K and X for all "
+              "curves, metrics, distances and thresholds; bounded layer for the equality with the recursive partition.")
+LEVEL_NOTE = ("The identification of the uninterpreted CostCoef/Dist with 'endpoint-line cost' / 'distance to chord' is C16/C17; summaries "
+              "of the leaf functions assumed deterministic; np.argmax contract assumed; base (structural) obligations are owned by C01.")
+TECHNIQUE = "contract-based deductive verification (AST->VC, z3) with ghost witnesses; bounded run-time layer as labelled stand-in"
